@@ -132,6 +132,48 @@ def closeness_jobs(r, tier):
     return jobs
 
 
+ANGLE_SRC = ("def f(v, w):\n    return (v.is_parallel(w), v.is_antiparallel(w), v.is_perpendicular(w), v.is_parallel(w, 1e-9), v.is_antiparallel(w, 1e-9),"
+             " v.is_perpendicular(w, 1e-9), w.is_parallel(v), w.is_perpendicular(v))\n")
+
+
+def angle_jobs(r, tier):
+    """operand pairs that really ARE parallel / antiparallel / perpendicular (generic pairs are `False` for every predicate whatever kernel
+    is selected), the two operands stored in DIFFERENT coordinate systems: every ordered pairing of longitudinal systems and of azimuthal
+    systems is hit (all ordered pairs of stored systems in the thorough tier)"""
+    jobs = []
+    a = [1.2, -0.7, 2.1]
+    perp = [0.7, 1.2, 0.0]                      # a . perp = 0
+    perp2 = [2.1 * 1.2, -2.1 * 0.7, -(1.2 ** 2 + 0.7 ** 2)]    # a . perp2 = 0, not in the x-y plane
+    others = [("parallel", [2.5 * c for c in a]), ("antiparallel", [-1.5 * c for c in a]), ("perpendicular", perp), ("perpendicular", perp2), ("generic", [0.3, 2.0, -1.1])]
+    for d in (3, 4, 2):
+        sigs = C.SIGS[d]
+        pairs = [(s1, s2) for s1 in sigs for s2 in sigs]
+        if tier != "thorough":
+            # a covering: each ordered pair of (azimuthal, longitudinal) systems once, temporal systems drawn at random
+            seen, cover = set(), []
+            r.shuffle(pairs)
+            for s1, s2 in pairs:
+                k = (s1[:2], s2[:2])
+                if k not in seen:
+                    seen.add(k)
+                    cover.append((s1, s2))
+            pairs = cover if d == 3 else cover[:12] if d == 4 else cover
+        for k_, (s1, s2) in enumerate(pairs):
+            kinds = others if tier == "thorough" else [others[k_ % 4]]
+            for _, oc in kinds:
+                ca = (a[:2] if d == 2 else a) + ([7.0] if d == 4 else [])
+                cb = (oc[:2] if d == 2 else oc) + ([9.0] if d == 4 else [])
+                if d == 2 and abs(ca[0] * cb[1] - ca[1] * cb[0]) > 1e-9 and abs(ca[0] * cb[0] + ca[1] * cb[1]) > 1e-9 and oc is not others[4][1]:
+                    continue                       # the 3D perpendicular partner is not perpendicular in the plane
+                fl = r.choice("gm")
+                toks = []
+                for sg, cc in ((s1, ca), (s2, cb)):
+                    names = C.field_names(fl, sg)
+                    toks.append("V:" + ",".join(f"{n}={x!r}" for n, x in zip(names, C.cart_to_stored(sg, cc))))
+                jobs.append((ANGLE_SRC, toks))
+    return jobs
+
+
 SING_SRC3 = ("def f(v, w):\n    return (v.x, v.y, v.rho, v.phi, v.z, v.theta, v.eta, v.costheta, v.cottheta, v.mag, v.mag2, v.deltaeta(w), v.deltaR(w), v.deltaangle(w),"
              " v.to_xyz(), v.to_rhophieta(), v.to_xytheta(), v.unit(), v.is_parallel(w), v.dot(w))\n")
 SING_SRC4 = ("def f(v, w):\n    return (v.eta, v.theta, v.t, v.tau, v.beta, v.gamma, v.rapidity, v.mag, v.tau2, v.is_timelike(), v.is_lightlike(), v.is_spacelike(),"
@@ -335,9 +377,21 @@ AK_PROBES = [
 ]
 
 
+AK_CASES = [
+    (("xy", "z", "t"), ("Momentum4D", ["x", "y", "z", "t"], [])), (("xy", "z", "t"), ("Momentum4D", ["x", "py", "pz", "E"], [])),
+    (("xy", "theta", "t"), ("Momentum4D", ["px", "y", "theta", "e"], [])), (("xy", "eta", "t"), ("Momentum4D", ["px", "py", "eta", "energy"], [])),
+    (("xy", "z", "tau"), ("Momentum4D", ["px", "py", "pz", "M"], [])), (("rhophi", "eta", "tau"), ("Momentum4D", ["pt", "phi", "eta", "m"], [])),
+    (("rhophi", "z", "tau"), ("Momentum4D", ["rho", "phi", "z", "mass"], [])), (("rhophi", "theta", "tau"), ("Momentum4D", ["pt", "phi", "theta", "tau"], [])),
+    (("xy", "z", "t"), ("Vector4D", ["x", "y", "z", "t"], [])), (("rhophi", "eta", "tau"), ("Vector4D", ["rho", "phi", "eta", "tau"], [])),
+    (("xy", "z", "tau"), ("Vector4D", ["x", "y", "z", "tau"], ["mass", "E", "pt"])), (("rhophi", "theta", "t"), ("Vector4D", ["rho", "phi", "theta", "t"], ["M", "px", "pz"])),
+    (("xy", "eta", "t"), ("Momentum4D", ["px", "py", "eta", "E"], ["charge"])),
+]
+
+
 def ak_probe_worker(job):
     """Awkward array of vectors iterated inside a compiled function vs the same Python function interpreted"""
-    src, sig, seed = job
+    src, sig, seed = job[:3]
+    case = job[3] if len(job) > 3 else None
     import awkward as ak
     import numba
     import vector
@@ -345,7 +399,16 @@ def ak_probe_worker(job):
     vector.register_awkward()
     r = Cm.rng(seed, "akprobe")
     rows = [Cm.cart_to_stored(sig, p) for p in Cm.strata_points(len(sig) + 1, r, n_random=3)[-6:]]
-    if seed % 2 == 0:
+    if case is not None:
+        # a FIXED record layout: (record name, field name per stored coordinate, extra field names): every spelling of every coordinate, all
+        # four x/px-y/py pairings, generic records, and generic records with EXTRA fields named like momentum synonyms (which must be ignored)
+        import numpy
+        rname, names, extra = case
+        cols = {nm: numpy.array([row[j] for row in rows]) for j, nm in enumerate(names)}
+        cols.update({nm: numpy.array([100.0 + 3 * q for q in range(len(rows))]) for nm in extra})
+        arr = ak.unflatten(ak.zip(cols, with_name=rname), [2, 0, 3, 1])
+        sig = list(sig) + [rname] + list(names) + list(extra)
+    elif seed % 2 == 0:
         arr = ak.unflatten(Cm.ak_array("m", sig, rows), [2, 0, 3, 1])
     else:
         # records that carry the momentum SPELLING as the field name (ak.zip(..., with_name=...)): the lowering picks a getter per spelling
@@ -527,6 +590,7 @@ def correspondence(ctx):
             jobs.append((src, toks))
     jobs.append(("def f(v, w):\n    return v.add(w)\n", ["g:xy:-:-:1", "m:rhophi:-:-:2"]))       # the known finding, for the record
     jobs += closeness_jobs(r, ctx.tier)
+    jobs += angle_jobs(r, ctx.tier)
     jobs += singular_jobs(r, ctx.tier)
     ajobs, n_api_expr, untemplated = api_jobs(r, ctx.tier)
     with mp.get_context("spawn").Pool(min(14, os.cpu_count() or 4)) as pool:
@@ -542,6 +606,7 @@ def correspondence(ctx):
         results += pool.map(probe_worker, single, chunksize=1) if single else []
         akjobs = [(src, r.choice(C.SIG4), 2 * (ctx.seed + k)) for k, src in enumerate(AK_PROBES)] + \
                  [(src, r.choice(C.SIG4), 2 * (ctx.seed + 7 * k + j) + 1) for k, src in enumerate(AK_PROBES) for j in range(2 if ctx.tier == "quick" else 8)]
+        akjobs += [(AK_PROBES[k % len(AK_PROBES) if ctx.tier != "quick" else 0], sg, ctx.seed, cs) for k, (sg, cs) in enumerate(AK_CASES)]
         akres = pool.map(ak_probe_worker, akjobs)
         mjobs = []
         for d in (2, 3, 4):
